@@ -175,6 +175,10 @@ class World:
                 self.race = None
             res["h"] = h
             self.drop = False
+            # a refusal because the presented certificate cannot be read is recognised by its kind (a ConnectionError that is
+            # not the certificate-changed error, while an unreadable certificate is being presented), not by its wording
+            if not res["ok"] and res["err"].startswith("other:Connection") and self.presents.get(h) == "unreadable" and self.client.tofu_db is not None:
+                res["err"] = "unreadable"
             if kind == "CallDropped" and not res["ok"] and res["err"].startswith("other:Connection"):
                 res["err"] = "dropped"
         elif kind in ("Redirected", "RedirectRotate"):
